@@ -505,7 +505,7 @@ func parseVUI(r *bits.EBSPReader, MaxSubLayersMinus1 byte) *VUIParameters {
 		if aspectRatioIDC == avc.ExtendedSAR {
 			vui.SampleAspectRatioWidth = r.Read(16)
 			vui.SampleAspectRatioHeight = r.Read(16)
-		} else {
+		} else if aspectRatioIDC != 0 { // 0 is "Unspecified" (Table E.1): no sample aspect ratio
 			var err error
 			vui.SampleAspectRatioWidth, vui.SampleAspectRatioHeight, err = avc.GetSARfromIDC(aspectRatioIDC)
 			if err != nil {
